@@ -53,13 +53,20 @@ def main() -> int:
     proofs_ok = lb["build_ok"] and not lb.get("forbidden") and not ob["failed"] and bool(ob["theorems"])
 
     # 2. harness
+    replay_key = None
     if a.replay:
+        # generic replay: re-run the generator with the recorded seed and tier (every random choice derives from
+        # them) and report only the recorded violation key / correspondence
         body = json.loads(open(a.replay).read())
-        if hasattr(mod, "replay"):
-            mod.replay(ctx, body)
-        else:
-            print("replay not supported for", prop, file=sys.stderr)
-            return 2
+        seed = int(body.get("seed", seed))
+        ctx = Ctx(prop, body.get("tier", a.tier), seed)
+        replay_key = body.get("key") or ",".join(body.get("broken_correspondences", []))
+        ctx.driver_ok = lb["build_ok"]
+        mod.run(ctx)
+        if body.get("key"):
+            ctx.violations = [v for v in ctx.violations if v["key"] == body["key"]]
+            ctx.disagreements = []
+        print(f"[replay] {replay_key}: {'reproduced' if (ctx.violations or ctx.disagreements) else 'not reproduced'}", file=sys.stderr)
     else:
         ctx.driver_ok = lb["build_ok"]
         mod.run(ctx)
